@@ -392,6 +392,41 @@ func cmdCheck(args []string) int {
 		}
 		fmt.Printf("VIOLATION property=%s replay=%s%s\n", *prop, path, suffix)
 	}
+	// bounded stand-ins registered for this property (never counted among the discharged obligations)
+	var boundedEv []interface{}
+	if *only == "" || strings.HasPrefix(*only, "bounded") {
+		for _, bs := range loadBounded(*prop) {
+			br := runBounded(bs, *tier, int64(seed))
+			solverSecs += 0
+			item := map[string]interface{}{"label": "bounded", "name": bs.Name, "stands_for": bs.StandsFor, "bound": br.Bound, "cases": br.Cases, "distinct_nontrivial": br.Distinct, "samples": br.Samples, "secs": br.Secs, "test": bs.Test, "harness": "bounded/" + bs.File}
+			if br.Err != "" {
+				fmt.Fprintf(os.Stderr, "ENGINE ERROR: bounded stand-in %s: %s\n", bs.Name, br.Err)
+				vacuous++
+				item["error"] = "harness did not complete"
+				boundedEv = append(boundedEv, item)
+				continue
+			}
+			nfail := 0
+			for _, f := range br.Fails {
+				name := "bounded:" + bs.Name + "#" + f.ID
+				if kf, ok := known[name]; ok {
+					fmt.Printf("KNOWN-FINDING: property=%s %s [%s]\n", *prop, kf.text, name)
+					knownList = append(knownList, name)
+					continue
+				}
+				nfail++
+				if nfail > 5 {
+					continue
+				}
+				violations++
+				fmt.Printf("  [failed] %s (bounded run on the real code)\n", name)
+				fmt.Printf("VIOLATION property=%s replay=%s\n", *prop, writeBoundedReplay(*prop, br, f))
+			}
+			item["failures"] = nfail
+			boundedEv = append(boundedEv, item)
+			fmt.Printf("  bounded stand-in %s: %d cases (%d distinct non-trivial), %d failing, %.1fs; bound: %s\n", bs.Name, br.Cases, br.Distinct, nfail, br.Secs, br.Bound)
+		}
+	}
 	coverSat, coverUndecided := 0, 0
 	for _, o := range covers {
 		switch o.Status {
@@ -409,6 +444,10 @@ func cmdCheck(args []string) int {
 		as = append(as, a)
 	}
 	sort.Strings(as)
+	for _, b := range boundedEv {
+		m := b.(map[string]interface{})
+		as = append(as, fmt.Sprintf("BOUNDED, not proved: %v — checked by exhaustive runs of the real code only within: %v", m["stands_for"], m["bound"]))
+	}
 	as = append(as, "trusted base: go/parser, go/types, x/tools go/ssa builder, govc instruction semantics and VC generator, SMT solvers (z3 4.8.12, z3 5.1.0, cvc5 1.0.3)",
 		"sequential semantics: no interleaving of other goroutines during a call",
 		"panics end a path (partial correctness) unless the function is marked nopanic")
@@ -424,6 +463,7 @@ func cmdCheck(args []string) int {
 		"load_seconds":             loadS,
 		"samples":                  samples,
 		"known_findings":           knownList,
+		"bounded_standins":         boundedEv,
 		"vacuity":                  map[string]int{"exit_covers_sat": coverSat, "exit_covers_undecided": coverUndecided, "vacuous": vacuous},
 	}
 	if !*noEvidence {
